@@ -19,15 +19,17 @@ func VerifRoots(a *Accumulator) (roots [][]byte, occupied []bool) {
 }
 
 // VerifDump reports (preimage, digest) of every data/branch node held in memory.
-func VerifDump(a *Accumulator, f func(pre, dig []byte)) {
+// f returns false to stop descending below a node (already reported).
+func VerifDump(a *Accumulator, f func(pre, dig []byte) bool) {
 	var walk func(n Node)
 	walk = func(n Node) {
 		switch x := n.(type) {
 		case *branchNode:
 			h := x.Hash()
-			f(x.serialized, h)
-			walk(x.left)
-			walk(x.right)
+			if f(x.serialized, h) {
+				walk(x.left)
+				walk(x.right)
+			}
 		case *dataNode:
 			f(x.data, x.Hash())
 		}
